@@ -56,6 +56,13 @@ def monitor(case):
     fw = [e['got'] for e in ev if e['e'] == 'rb' and e.get('got')]
     if not is_subseq([key(m) for m in fw], [key(m) for m in delivered]):
         return 'a forwarded request is not a faithful in-order copy of a delivered one'
+    # sleep safety (theorem rob_no_progress_means_no_change): a tick that reports no progress changed nothing, so
+    # the very next tick (no delivery or retrieval in between) cannot report progress; if it does, the first
+    # one consumed or dropped something unreported and the engine would have put the buffer to sleep on it
+    for i in range(len(ev) - 1):
+        if ev[i]['e'] == 'tick' and ev[i + 1]['e'] == 'tick' and ev[i].get('progress') is False and ev[i + 1].get('progress') is True:
+            return ('tick %d reported no progress but the next tick, with nothing delivered or retrieved in between, made '
+                    'progress: the first tick changed the buffer without reporting it (the engine would let it sleep)' % i)
     # control protocol (theorem rob_control_acknowledged_exactly_once): the k-th acknowledgement answers the
     # k-th accepted control message, there are never more acknowledgements than accepted messages, and after
     # a quiet drain tail none is missing
